@@ -778,6 +778,22 @@ func (e *Eng) binop(op token.Token, a, b Val, c *ctx, n ast.Node) Val {
 // bitopInt handles bit operations in int mode: exact for masks with 2^k-1,
 // otherwise an uninterpreted function with the obvious range facts.
 func (e *Eng) bitopInt(op token.Token, a, b Val, t types.Type, c *ctx, n ast.Node) Val {
+	if isLiteralTerm(a.T) && isLiteralTerm(b.T) {
+		x, _ := new(big.Int).SetString(a.T, 10)
+		y, _ := new(big.Int).SetString(b.T, 10)
+		r := new(big.Int)
+		switch op {
+		case token.AND:
+			r.And(x, y)
+		case token.OR:
+			r.Or(x, y)
+		case token.XOR:
+			r.Xor(x, y)
+		case token.AND_NOT:
+			r.AndNot(x, y)
+		}
+		return Val{K: KInt, T: r.String(), GoT: t}
+	}
 	if op == token.AND {
 		for _, p := range [][2]Val{{a, b}, {b, a}} {
 			if isLiteralTerm(p[1].T) {
